@@ -72,6 +72,10 @@ def step (st : St) : List String → St × String
   | ["z.get", k] => (st, optHex (ZipTree.get (hexOr k) st.zip))
   | ["z.asc", p] => (st, showKV (ZipTree.ascendPrefix st.zip (hexOr p)))
   | ["z.ascn", p, n] => (st, showKV (ZipTree.ascendPrefixN st.zip (hexOr p) (natOr n)))
+  | ["z.ascins", p, k, v, rank] =>
+    -- structural mutation during a scan (documented as outside the contract; the behaviour is pinned to the model)
+    let r := ZipTree.ascendInsert (hexOr p) (hexOr k) (hexOr v) (natOr rank) st.zip
+    ({ st with zip := r.2 }, showKV r.1)
   | ["z.reput", k, v] =>
     let r := ZipTree.reput (hexOr k) (hexOr v) st.zip
     ({ st with zip := r.2 }, optHex r.1)
@@ -98,6 +102,9 @@ def step (st : St) : List String → St × String
   | ["h.dump"] => (st, showNats (st.heap.data.toList.map (·.id)))
   -- partitioned priority queue
   | ["q.new", n] => ({ st with ppq := PPQ.new (Array.replicate (natOr n) []) }, "ok")
+  | ["q.prod", n, _] =>
+    -- same queue over the production partition type (its cache size is the environment's business)
+    ({ st with ppq := PPQ.new (Array.replicate (natOr n) []) }, "ok")
   | ["q.newp", n, items] =>
     -- constructor over partitions that already hold items (as after a restore)
     let parts := (csv items).foldl (fun (ps : Array (List PPQ.Item)) s =>
